@@ -8,6 +8,8 @@ package main
 
 import (
 	"fmt"
+	"go/constant"
+	"strconv"
 	"go/token"
 	"go/types"
 	"sort"
@@ -55,6 +57,10 @@ func (V *Verifier) runClosures(prop string) []closureResult {
 	for _, c := range V.db.Closures {
 		tags, text := parseTags(c.Text)
 		if prop != "all" && prop != "" && !hasTag(tags, prop) {
+			continue
+		}
+		if strings.HasPrefix(text, "const_args ") {
+			out = append(out, V.constArgsClosure(tags, text, c.File))
 			continue
 		}
 		i := strings.Index(text, " in ")
@@ -255,4 +261,143 @@ func typeReaches(t types.Type, name string, depth int, seen map[string]bool) boo
 		}
 	}
 	return false
+}
+
+// constArgsClosure: "const_args pkg.Func in F = "a" "b" ..." - the (single)
+// call of pkg.Func in function F of the package passes exactly these string
+// constants, taken as unordered (old, new) pairs: a table such as the
+// message-tag escape table is what the code says it is.
+func (V *Verifier) constArgsClosure(tags []string, text, file string) closureResult {
+	res := closureResult{Name: "closure/const_args", Tags: tags, Text: text}
+	eq := strings.Index(text, " = ")
+	fs := strings.Fields(text)
+	if eq < 0 || len(fs) < 4 || fs[2] != "in" {
+		res.Detail = "malformed const_args clause"
+		return res
+	}
+	target, fname := fs[1], fs[3]
+	res.Name = "closure/const_args:" + target
+	var want []string
+	rest := strings.TrimSpace(text[eq+3:])
+	for rest != "" {
+		if rest[0] != '"' {
+			res.Detail = "malformed constant list"
+			return res
+		}
+		j := 1
+		for j < len(rest) && rest[j] != '"' {
+			if rest[j] == '\\' {
+				j++
+			}
+			j++
+		}
+		if j >= len(rest) {
+			res.Detail = "unterminated string constant"
+			return res
+		}
+		v, err := strconv.Unquote(rest[:j+1])
+		if err != nil {
+			res.Detail = "bad string constant " + rest[:j+1]
+			return res
+		}
+		want = append(want, v)
+		rest = strings.TrimSpace(rest[j+1:])
+	}
+	pkgName := "client"
+	if strings.Contains(file, "/state/") {
+		pkgName = "state"
+	}
+	pkg := V.pkgs[pkgName]
+	var fn *ssa.Function
+	if pkg != nil {
+		fn = pkg.Func(fname)
+	}
+	if fn == nil {
+		res.Detail = "no function " + fname
+		return res
+	}
+	var got []string
+	found := false
+	for _, b := range fn.Blocks {
+		for _, in := range b.Instrs {
+			ci, ok := in.(ssa.CallInstruction)
+			if !ok {
+				continue
+			}
+			callee := ci.Common().StaticCallee()
+			if callee == nil || callee.Pkg == nil || callee.Pkg.Pkg.Name()+"."+fnKeyOf(callee) != target {
+				continue
+			}
+			if found {
+				res.Detail = "more than one call of " + target
+				return res
+			}
+			found = true
+			res.Sites++
+			// constants stored into the variadic array, in index order
+			vals := map[int64]string{}
+			okAll := true
+			for _, a := range ci.Common().Args {
+				sl, ok := a.(*ssa.Slice)
+				if !ok {
+					okAll = false
+					continue
+				}
+				alloc, ok := sl.X.(*ssa.Alloc)
+				if !ok {
+					okAll = false
+					continue
+				}
+				for _, r := range *alloc.Referrers() {
+					ia, ok := r.(*ssa.IndexAddr)
+					if !ok {
+						continue
+					}
+					idx, ok := ia.Index.(*ssa.Const)
+					if !ok {
+						okAll = false
+						continue
+					}
+					for _, r2 := range *ia.Referrers() {
+						if st, ok := r2.(*ssa.Store); ok && st.Addr == ia {
+							if c, ok := st.Val.(*ssa.Const); ok && c.Value != nil && c.Value.Kind() == constant.String {
+								vals[idx.Int64()] = constant.StringVal(c.Value)
+							} else {
+								okAll = false
+							}
+						}
+					}
+				}
+			}
+			if !okAll {
+				res.Detail = "arguments are not all string constants"
+				return res
+			}
+			for i := int64(0); i < int64(len(vals)); i++ {
+				got = append(got, vals[i])
+			}
+		}
+	}
+	if !found {
+		res.Detail = "no call of " + target + " in " + fname
+		return res
+	}
+	pairs := func(xs []string) []string {
+		var ps []string
+		for i := 0; i+1 < len(xs); i += 2 {
+			ps = append(ps, strconv.Quote(xs[i])+"->"+strconv.Quote(xs[i+1]))
+		}
+		if len(xs)%2 == 1 {
+			ps = append(ps, "odd:"+strconv.Quote(xs[len(xs)-1]))
+		}
+		sort.Strings(ps)
+		return ps
+	}
+	g, w := pairs(got), pairs(want)
+	if strings.Join(g, " ") != strings.Join(w, " ") {
+		res.Detail = fmt.Sprintf("table is %v, expected %v", g, w)
+		return res
+	}
+	res.OK = true
+	return res
 }
